@@ -18,8 +18,8 @@ FN = {'N': F.NEGATE, 'M': F.MINUSNEGATE, 'A': F.NEGATEALL, 'S': F.SPLIT, 'B': F.
 GL = dict(FN, G=G.GLOBSTAR, O=G.NODIR)
 
 POOL = {
-    'fn': ['*', 'a*', '.*', '*.a', '[!a]*', '@(a|b)', '!(a)', '\\!a', '\\-a', '[|]', 'a\\|b', '?(a|b)c', '[!|]a', '@(a|[|])', '@(a\\)|b)', '*(\\||a)', '@(a|\\(|b)'],
-    'glob': ['*', 'a/*', '**', '**/.a', '*/', '*.a', '.*', '@(a|b)/*', '!(a)', '\\!a', '[|]/a', 'a\\|b', '@(a\\)|b)', '@(a|[)]|b)/*'],
+    'fn': ['*', 'a*', '.*', '*.a', '[!a]*', '@(a|b)', '!(a)', '\\!a', '\\-a', '[|]', 'a\\|b', '?(a|b)c', '[!|]a', '@(a|[|])', '@(a\\)|b)', '*(\\||a)', '@(a|\\(|b)', '[]|]', '[[:alpha:]|]', '[!]|]a'],
+    'glob': ['*', 'a/*', '**', '**/.a', '*/', '*.a', '.*', '@(a|b)/*', '!(a)', '\\!a', '[|]/a', 'a\\|b', '@(a\\)|b)', '@(a|[)]|b)/*', '[]|]', '[[:digit:]|]/a'],
 }
 EXCL = {
     'fn': ['*.a', 'a*', '.*', '*', '@(a|b)', '?a'],
